@@ -235,6 +235,7 @@ def nas(v):
 # regular expressions: the portable patterns the generator uses (valid / invalid in both engines)
 REGEX_OK = {"a", "^a", "b$", "a.c", "[a-c]+", "(a)(b)?", "x|y", "[0-9]+", "(é)", "a*", "\\d+", "h(el+)o", "^$", "é", "(.)(é)?", "[a-z]+", "[a-z ]+([0-9]+)[a-z ]+",
             # groups that may not take part in the match: same leftmost-first semantics in both engines
+            "^\\w{1,100}$", "^[\\w.-]{1,64}@[\\w.-]{1,64}$", "^(\\w{1,40})-(\\w{1,40})$",
             "(a)?(b)", "(x)|(y)|(a)", "(h)?(e)?(l+)", "([0-9]+)?-?([a-z]+)", "(a)|(b)", "((a)|(b))+(c)?", "(?:a)(b)(?P<n>c)?", "(é)?(.)"}
 REGEX_BAD = {"(", "[", "[0-9"}
 
